@@ -84,7 +84,8 @@ def fields_read_transitively(fn, cls_fields=None, depth=0, seen=None):
 # user code / fault classification (A6)
 
 USER_INVOKE = 'user-invoke'     # runs a user callable (callback, listener, filter, predicate, policy function)
-USER_COPY = 'user-copy'         # constructs / assigns / destroys / compares / hashes a user object
+USER_COPY = 'user-copy'         # constructs / assigns / compares / hashes a user object
+USER_DESTROY = 'user-destroy'   # destroys a user object (destructors are noexcept unless the user says otherwise)
 ALLOC = 'alloc'                 # may allocate memory
 NOFAULT = 'nofault'
 UNKNOWN = 'unknown'
@@ -138,7 +139,9 @@ def classify_callee(fn, n):
         ce = o.get('calleeExpr')
         p = path(fn, ce) if ce else ('?',)
         lf = last_field(p)
-        if lf in ('dtor', 'free', 'moveConstruct', 'deleter'):
+        if lf in ('dtor', 'free', 'deleter'):
+            return {USER_DESTROY}, 'indirect:' + pstr(p)
+        if lf in ('moveConstruct',):
             return {USER_COPY}, 'indirect:' + pstr(p)
         if lf == 'dispatcher':
             return {USER_INVOKE, ALLOC}, 'indirect:' + pstr(p)
@@ -146,7 +149,7 @@ def classify_callee(fn, n):
     k = short(cal['key'])
     is_ctor = fn.is_construct(n)
     if cal.get('lib'):
-        if cal.get('fid', -1) >= 0:
+        if cal.get('fid', -1) >= 0 or cal.get('virt'):
             return {'lib'}, k
         # library function without body in this TU (defaulted / trivial)
         return {NOFAULT}, k
@@ -154,7 +157,9 @@ def classify_callee(fn, n):
         # user code in the analysed unit (witness policies, listeners, predicates)
         if cal['name'] in LOCK_METHODS and not cal['params']:
             return {NOFAULT}, k
-        if is_ctor or cal.get('dtor') or cal.get('assign') or cal['name'] in ('operator==', 'operator<', 'operator!='):
+        if cal.get('dtor'):
+            return {USER_DESTROY}, k
+        if is_ctor or cal.get('assign') or cal['name'] in ('operator==', 'operator<', 'operator!='):
             return {USER_COPY}, k
         return {USER_INVOKE, ALLOC}, k
     # standard library
@@ -180,6 +185,12 @@ def classify_callee(fn, n):
         return {ALLOC}, k
     if k.startswith('std::list::sort'):
         return {USER_INVOKE}, k     # runs the comparator
+    # moving a standard container steals its storage (same allocator): no allocation, no element copy
+    if k.startswith(('std::map::', 'std::unordered_map::', 'std::list::', 'std::vector::', 'std::array::')) and \
+            (cal.get('ctor') == 'move' or cal.get('assign') == 'move'):
+        return {NOFAULT}, k
+    if cal.get('nothrow') and not k.startswith('std::make_shared'):
+        return {NOFAULT}, k
     if _starts(k, STD_ALLOC_PREFIX):
         eff = {ALLOC}
         if 'map' in k:
@@ -232,7 +243,7 @@ class Summaries:
         if d.get('lib') and fid >= 0 and fid in fn.tu.by_id:
             return set(self.effects(fn.tu.by_id[fid]))
         if not d.get('lib') and not d.get('sys') and d.get('dtor'):
-            return {USER_COPY}
+            return {USER_DESTROY}
         return set()
 
     def node_effects(self, fn, n):
